@@ -14,7 +14,7 @@ from common import Ctx, Counters, Failure, main_wrapper, run_workers, load_repla
 
 PID = "C03"
 RULE = ("per configuration (every output type x formats that together use every data source x chains incl. exclude_spawns_of x real "
-        "sink states: directory absent, no permission as non-root, /dev/full (ENOSPC), unread datagram socket with a full queue): a "
+        "sink states: directory absent, no permission as non-root, /dev/full (ENOSPC), unread datagram socket with a full queue, controlling terminal with the caller as foreground and as background job): a "
         "traced dry run lists the I/O system calls issued between wrapper entry and the recording real-exec; then EVERY such call is "
         "failed once with each plausible errno for that call (all single faults; every errno also persistently from that call on, except EINTR), short transfers (write/send returning 1 or 10, read returning 0 or 1), EAGAIN (and "
         "EINTR on write/send/connect) also persistently (from that call on), and pairs of faults on different calls are sampled; a second pass repeats the interrupted (EINTR/EAGAIN) and short transfers on the AddressSanitizer build (a retry resuming from the wrong offset). Oracle: the real exec is reached exactly once with intact "
@@ -55,7 +55,10 @@ def configs(out, quick, rng):
             ("file-absent-dir", b"file:" + o + b"/nodir/log", []), ("file-devfull", b"file:/dev/full", []),
             ("file-noperm", b"file:" + o + b"/noperm.log", ["noperm"]), ("socket-absent", b"socket:" + o + b"/nosock", []),
             ("socket-fullqueue", b"socket:" + o + b"/sock", ["sock", "fill"]), ("devlog-fullqueue", b"devlog", ["devlog", "fill"]),
-            ("devlog-absent", b"devlog", []), ("file-relative", b"file:relative.log", [])]
+            ("devlog-absent", b"devlog", []), ("file-relative", b"file:relative.log", []),
+            # the caller has a controlling terminal: as the foreground job, and as a background job (`cmd &`), where terminal
+            # operations other than a plain write stop the process with SIGTTOU
+            ("devtty-foreground", b"devtty", ["ctty"]), ("devtty-background-job", b"devtty", ["ctty", "bg"])]
     fmts = [("all-ds", ALL_DS), ("default", None), ("ident", b"%{login} %{tty_username} %{rpname} %{cgroup:memory} %{cwd} %{env_all}")]
     chains = [None, b"exclude_spawns_of:nosuch,zz;only_uid:0", b"only_tty;exclude_uid:7"]
     allc = []
@@ -97,8 +100,8 @@ def scenario_ops(cfg, out):
     if "noperm" in st:
         # file owned by root, mode 0600; the call runs as uid 1000
         ops += [drv.op("S", 9, "file", out + "/noperm.log"), drv.op("U", -1, -1, -1, 1000, 1000, 1000)]
-    if cfg["oname"] == "devlog-absent":
-        pass
+    if "ctty" in st:
+        ops += [drv.op("f"), drv.op("T")] + ([drv.op("b")] if "bg" in st else [])
     ops.append(drv.op_exec("e", b"/bin/prog", [b"prog", b"a"], [b"E=1"], ret=-1, err=13))
     return ops
 
@@ -108,6 +111,9 @@ def judge(rc, events, signals, what):
         raise Failure("call did not complete within the bound (%s)" % what, None, key="hang")
     R = [e for e in events if e.code == "R"]
     T = [e for e in events if e.code == "T"]
+    stopped = [e.f[0].decode("latin-1") for e in events if e.code == "E" and b"stopped by signal" in e.f[0]]
+    if stopped:
+        raise Failure("the caller was stopped by a signal because of logging: %s (%s)" % (stopped[0], what), None, key="signal")
     sig_in_window = [s for ph, s in signals if ph in (1, 2)]
     if sig_in_window:
         raise Failure("signal delivered to the caller inside the wrapped call (%s)" % what, {"signals": sig_in_window[:3]}, key="signal")
